@@ -15,12 +15,78 @@ def run_bin(ctx, binary, N, rows, tag):
     return obs
 
 
-def run(ctx):
-    # (N, max bookkeepers, max signatures, max outsiders, slack, align) -- see SigHeader.tla
+QPADS = ("garbage", "stale", "repeat", "unlisted", "outsider")
+KEY_SHORT = "SyncBlockHeader:unsound-accept:verifies-fewer-signatures-than-two-thirds"
+
+
+def probe(ctx, binary, Ns):
+    """Thresholds of the tree for every peer-set size in Ns, one harness call: headers listing the first L peers
+    (L = 0..N) with valid signatures of the first j of them (j = 0..L) and garbage in the remaining L-j places.
+    -> {N: (ml, svtab)}: ml = shortest list accepted when every listed peer signed, svtab[L] = how many leading
+    signatures must be valid for a list of length L (as many as the contract really verifies)."""
+    batch, meta = [], []
+    for N in Ns:
+        full = list(range(1, N + 1))
+        lj = [(L, j) for L in range(0, N + 1) for j in range(0, L + 1)]
+        batch.append({"n": N, "rows": [{"bk": full[:L], "sigs": [sc.G(k) for k in full[:j]] + [sc.X] * (L - j)} for L, j in lj]})
+        meta.append(lj)
+    res = sc.go_rows(ctx, binary, "TestVerifSigHeaderSync", {"batch": batch}, "c33-probe")
+    if res is None:
+        return {}
+    out = {}
+    for wi, N in enumerate(Ns):
+        m = [o for o in res if o.get("meta") and o.get("w") == wi]
+        obs = [o for o in res if "i" in o and o.get("w") == wi]
+        if len(m) != 1 or m[0].get("storedPeers") != N:
+            ctx.infra("probe N=%d: the contract has not stored a peer set of %d peers (%s)" % (N, N, m[:1]))
+            continue
+        if len(obs) != len(meta[wi]) or any(o.get("panic") for o in obs):
+            ctx.infra("probe N=%d: %d/%d observations, panics %s" % (N, len(obs), len(meta[wi]), [o["panic"] for o in obs if o.get("panic")][:2]))
+            continue
+        acc = {lj: bool(o["acc"]) for lj, o in zip(meta[wi], obs)}
+        full_ok = [L for L in range(0, N + 1) if acc[(L, L)]]
+        if not full_ok:
+            ctx.infra("probe N=%d: the real code accepted none of the fully signed probe headers" % N)
+            continue
+        ml = full_ok[0]
+        if full_ok != list(range(ml, N + 1)):
+            ctx.infra("probe N=%d: acceptance not monotone in the list length (%s)" % (N, full_ok))
+            continue
+        svtab, bad = {}, None
+        for L in range(0, N + 1):
+            js = [j for j in range(0, L + 1) if acc[(L, j)]]
+            if js != (list(range(js[0], L + 1)) if js and L >= ml else []):
+                bad = (L, js)
+                break
+            if js:
+                svtab[L] = js[0]
+        if bad:
+            ctx.infra("probe N=%d: acceptance not monotone in the number of valid signatures (list length %d: %s)" % ((N,) + bad))
+            continue
+        out[N] = (ml, svtab)
+    return out
+
+
+def confs_for(ctx):
+    """(N, max bookkeepers, max signatures, max outsiders, slack, align, quorum mode) -- see SigHeader.tla.  The general
+    enumeration (all lists / all signature symbols) runs for 4 and 7 (10) peers; the quorum mode (number of valid
+    signatures independent of the number listed) for EVERY peer-set size, all residues mod 3."""
     if not ctx.thorough:
-        confs = [(4, 3, 3, 1, 1, 0), (7, 5, 5, 0, 0, 3)]
+        general = [(4, 3, 3, 1, 1, 0), (7, 5, 5, 0, 0, 3)]
+        qn = range(1, 11)
     else:
-        confs = [(4, 4, 4, 1, 0, 0), (4, 5, 5, 1, 0, 3), (7, 6, 6, 0, 0, 3), (7, 5, 5, 1, 0, 3), (10, 7, 7, 0, 0, 2)]
+        general = [(4, 4, 4, 1, 0, 0), (4, 5, 5, 1, 0, 3), (5, 4, 4, 0, 1, 0), (7, 6, 6, 0, 0, 3), (7, 5, 5, 1, 0, 3), (10, 7, 7, 0, 0, 2)]
+        qn = range(1, 14)
+    confs, seen = [], set()
+    for g in general:
+        confs.append(g + (g[0] in qn and g[0] not in seen,))
+        seen.add(g[0])
+    confs += [(N, 0, 0, 0, 0, 0, True) for N in qn if N not in seen]
+    return sorted(confs, key=lambda c: c[0])
+
+
+def run(ctx):
+    confs = confs_for(ctx)
     binary = ctx.go_test_bin("smartcontract/service/native/cross_chain/header_sync/test", harness="b_sig_hsync")
     if ctx.replay_in:
         import json, sys
@@ -34,42 +100,61 @@ def run(ctx):
         sys.exit(1 if bad else 0)
     nexec = nacc = nunsound = cand = 0
     per = {}
+    epoch = {}
     if binary:
-        # 1. probe the thresholds of every configuration, 2. all TLC runs side by side, 3. execute the rows
+        # the stateful part (spec/SigEpoch.tla, below) is independent of the header enumeration: it runs alongside
+        import threading
+
+        def epoch_job():
+            try:
+                epoch["r"] = sc.epoch_phase(ctx, binary, "sync", "SigEpoch_C33.cfg", "TestVerifSigEpochSync", {"n": 4, "keys": 5})
+            except BaseException as e:  # noqa
+                epoch["exc"] = e
+        eth = threading.Thread(target=epoch_job)
+        eth.start()
+        # 1. probe the thresholds of every peer-set size, 2. all TLC runs side by side, 3. execute the rows
         plan = []
-        for ci, (N, maxbk, maxsigs, outs, slack, align) in enumerate(confs):
-            full = list(range(1, N + 1))
-            pobs = run_bin(ctx, binary, N, [{"bk": full[:j], "sigs": [sc.G(k) for k in full[:j]]} for j in range(0, N + 1)], "c33-probe-%d-%d" % (N, ci))
-            if pobs is None:
+        probed = probe(ctx, binary, sorted({c[0] for c in confs}))
+        for ci, (N, maxbk, maxsigs, outs, slack, align, quorum) in enumerate(confs):
+            if N not in probed:
                 continue
-            ml = sc.first_accepted(pobs, "bookkeeper list length", ctx)
-            if ml is None:
-                continue
-            if any(not o["acc"] for o in pobs[ml:]):
-                ctx.infra("probe N=%d: acceptance not monotone in the list length" % N)
-                continue
+            ml, svtab = probed[N]
             need = -(-2 * N // 3)
-            ctx.log("N=%d: the tree wants a bookkeeper list of length >= %d (property: >= %d distinct valid peer signatures)" % (N, ml, need))
+            short = {L: m for L, m in svtab.items() if m != L}
+            ctx.log("N=%d: the tree wants a bookkeeper list of length >= %d and verifies %s (property: >= %d distinct valid peer signatures)"
+                    % (N, ml, "every listed bookkeeper's signature" if not short else "only {list length: signatures} %s" % short, need))
             name = "SigHeader_S%d_%d.cfg" % (N, ci)
-            # MaskByPosition OFF (repaired by 900ecb87).  With the probed threshold at (or above) two thirds the
+            # MaskByPosition OFF (repaired by 900ecb87).  With the probed thresholds at (or above) two thirds the
             # property SyncSound itself is the invariant of the model of the tree; a lower probed threshold is a
             # candidate that the rows then confirm on the real code
-            ccfg = sc.hdr_cfg(N, 0, 0, 0, ml, False, "sync", maxbk, maxsigs, "SyncSound" if ml >= need else "SyncSoundUpTo", True,
-                              outs, slack, align)
-            plan.append((ci, N, maxbk, maxsigs, outs, slack, align, ml, need, name, ccfg))
+            sound = ml >= need and all(m >= need for m in svtab.values())
+            ccfg = sc.hdr_cfg(N, 0, 0, 0, ml, False, "sync", maxbk, maxsigs, "SyncSound SyncQuorum" if sound else "SyncSoundUpTo", True,
+                              outs, slack, align, svtab=svtab, qpads=QPADS if quorum else (),
+                              qmin=0 if ctx.thorough else max(0, ml - 1), qmax=N, qshort=N if ctx.thorough else 1)
+            plan.append((ci, N, maxbk, maxsigs, outs, slack, align, ml, need, name, ccfg, svtab, quorum))
         tlc = sc.parallel(*[(lambda pl=pl: sc.run_tlc_rows(ctx, "SigHeader_MC", pl[9], files={pl[9]: pl[10]}, workers=max(2, sc.vf.NCPU // max(1, len(plan)))))
                             for pl in plan]) if plan else []
+        todo = []
         for pl, (r, rows) in zip(plan, tlc):
-            ci, N, maxbk, maxsigs, outs, slack, align, ml, need, name, ccfg = pl
+            N, quorum, need = pl[1], pl[12], pl[8]
             if not r:
                 continue
             H = sc.hdr_rows(rows)
             if not any(h["acc"] for h in H) or not any(not h["acc"] for h in H):
                 ctx.infra("vacuous model run N=%d" % N)
                 continue
+            # the quorum mode must have produced the class it is there for: enough bookkeepers LISTED, one valid signature short
+            if quorum and N >= 2 and not any(len(h["bk"]) >= need and not h["ok"] and len({s[1] for s in h["sigs"] if s[0] == "g" and s[1] in h["bk"]}) == need - 1
+                                             and len(h["sigs"]) >= len(h["bk"]) for h in H):
+                ctx.infra("vacuous quorum mode N=%d: no header listing two thirds with one valid signature less" % N)
+                continue
+            todo.append((pl, H))
+        allobs = sc.parallel(*[(lambda pl=pl, H=H: run_bin(ctx, binary, pl[1], [{"bk": h["bk"], "sigs": h["sigs"]} for h in H], "c33-rows-%d-%d" % (pl[1], pl[0])))
+                               for pl, H in todo]) if todo else []
+        for (pl, H), obs in zip(todo, allobs):
+            ci, N, maxbk, maxsigs, outs, slack, align, ml, need, name, ccfg, svtab, quorum = pl
             c = sum(1 for h in H if h["acc"] and not h["ok"])
             cand += c
-            obs = run_bin(ctx, binary, N, [{"bk": h["bk"], "sigs": h["sigs"]} for h in H], "c33-rows-%d-%d" % (N, ci))
             if obs is None:
                 continue
             drift = []
@@ -89,6 +174,8 @@ def run(ctx):
                         key = "SyncBlockHeader:unsound-accept:non-peer-bookkeeper"
                     elif 3 * len(h["bk"]) < 2 * N:
                         key = "SyncBlockHeader:unsound-accept:list-shorter-than-two-thirds"
+                    elif h["acc"] and 3 * svtab.get(len(h["bk"]), len(h["bk"])) < 2 * N:
+                        key = KEY_SHORT      # enough bookkeepers listed, but fewer of their signatures verified than two thirds of the peers
                     elif h["dup"]:
                         key = KNOWN          # fixed by 900ecb87: a long enough list of peers with one peer counted several times
                     elif h["acc"]:
@@ -103,11 +190,17 @@ def run(ctx):
                 ctx.infra("MODEL-DRIFT N=%d: %d/%d rows, e.g. %s" % (N, len(drift), len(H), drift[:3]))
             nexec += len(obs); nacc += acc; nunsound += uns
             per["N=%d/%d" % (N, ci)] = {"rows": len(obs), "max_outsiders": outs, "sig_slack": slack, "align_opts": align, "accepted": acc, "unsound_accepts": uns, "tlc_candidates": c, "min_list_len": ml,
-                               "max_bk": maxbk, "max_sigs": maxsigs}
+                               "max_bk": maxbk, "max_sigs": maxsigs, "quorum_mode": quorum, "two_thirds": need,
+                               "sigs_verified_by_list_len": {str(L): m for L, m in sorted(svtab.items())}}
             ctx.log("N=%d: %d rows on SyncBlockHeader+VerifyHeader, %d accepted, %d against the property (TLC candidates %d)" % (N, len(obs), acc, uns, c))
-            ctx.samples.append({"peers": N, "header": sc.hdr_str(H[len(H) // 2]), "model_accepts": H[len(H) // 2]["acc"], "property_allows": H[len(H) // 2]["ok"]})
+            if maxbk or N in (5, 8):
+                ctx.samples.append({"peers": N, "header": sc.hdr_str(H[len(H) // 2]), "model_accepts": H[len(H) // 2]["acc"], "property_allows": H[len(H) // 2]["ok"]})
     # stateful part: which stored peer set governs a header when key headers arrive in any order (spec/SigEpoch.tla)
-    ep = sc.epoch_phase(ctx, binary, "sync", "SigEpoch_C33.cfg", "TestVerifSigEpochSync", {"n": 4, "keys": 5}) if binary else None
+    if binary:
+        eth.join()
+        if "exc" in epoch:
+            raise epoch["exc"]
+    ep = epoch.get("r")
     if ep:
         nexec += ep[0]
         per["epoch histories"] = {"histories": ep[0], "steps": ep[1], "unsound_accepts": ep[2]}
@@ -117,5 +210,6 @@ def run(ctx):
         "tlc_candidates_against_property": cand, "per_configuration": per, "exhaustive": True,
     }, ["ideal cryptography", "peer set stored through the contract's own SyncGenesisHeader path over an in-memory CacheDB; every header is offered to SyncBlockHeader on a throw-away cache and to VerifyHeader directly",
         "headers enumerated up to renaming of peers (listed in order of first occurrence); signatures by listed peers, one unlisted peer, an outsider, garbage, stale",
+        "quorum mode, every peer-set size 1..10 (thorough ..13): L distinct peers listed, the first or last v of them signed, signature list padded (before or after) with garbage / stale / repeated / unlisted-peer / outsider signatures to |bk|-1..|bk|+1 (thorough: any length), all L and v",
         "stateful part (SigEpoch): all histories of 3 SyncBlockHeader steps at 3 heights in any order, key headers retiring one peer, 5 signer sets",
-        "the list-length threshold is probed from the tree and fed to TLC as a constant"])
+        "the list-length threshold and the number of signatures verified per list length are probed from the tree and fed to TLC as constants"])
